@@ -142,6 +142,8 @@ type sessState struct {
 	Loc    []sessNLRI `json:"loc"`
 	AdjOut []string   `json:"adjout"`
 	ASN    bool       `json:"asn"`
+
+	openProblem string // what is wrong with the OPEN the speaker wrote, given its configuration ("" = nothing)
 }
 
 // role numbers of RFC 9234 as used in the capability
@@ -478,6 +480,9 @@ func (s *session) observe() sessState {
 			switch d.Type {
 			case wire.TypeOpen:
 				e.Kind = "OPEN"
+				if d.Open != nil && o.openProblem == "" {
+					o.openProblem = s.openProblem(d.Open)
+				}
 			case wire.TypeKeepalive:
 				e.Kind = "KEEPALIVE"
 			case wire.TypeNotification:
@@ -534,6 +539,38 @@ func (s *session) observe() sessState {
 	return o
 }
 
+// openProblem compares the OPEN the speaker wrote with its configuration (C17: what it serialises decodes to the same content).
+func (s *session) openProblem(o *wire.Open) string {
+	if o.Version != 4 || o.AS != 65000 || o.HoldTime != s.cfg.Hold || o.ID != 100 {
+		return fmt.Sprintf("version %d AS %d hold time %d identifier %d, configured: 4 / 65000 / %d / 100", o.Version, o.AS, o.HoldTime, o.ID, s.cfg.Hold)
+	}
+	role, as4 := -1, -1
+	for _, c := range o.Caps {
+		switch c.Code {
+		case 9:
+			if len(c.Value) != 1 {
+				return fmt.Sprintf("role capability of %d bytes", len(c.Value))
+			}
+			role = int(c.Value[0])
+		case 65:
+			if len(c.Value) == 4 {
+				as4 = int(c.Value[0])<<24 | int(c.Value[1])<<16 | int(c.Value[2])<<8 | int(c.Value[3])
+			}
+		}
+	}
+	if as4 != 65000 {
+		return fmt.Sprintf("4-octet AS capability %d, configured AS 65000", as4)
+	}
+	want := -1
+	if !s.cfg.IBGP && s.cfg.Role != "none" && s.cfg.Role != "" {
+		want = int(roleCap[s.cfg.Role])
+	}
+	if role != want {
+		return fmt.Sprintf("role capability %d, configured role %q = %d in RFC 9234 (-1 = no capability)", role, s.cfg.Role, want)
+	}
+	return ""
+}
+
 func nlriKeys(ns []sessNLRI) []string {
 	out := []string{}
 	for _, n := range ns {
@@ -572,6 +609,9 @@ func (s *session) diff(exp sessState, got sessState, subs []int, malformedEarly 
 	if n, m := len(got.Out), len(exp.Out); n == m+1 && m >= 1 && exp.Out[m-1].Kind == "NOTIFICATION" && exp.Out[m-1].Code == 2 &&
 		got.Out[n-1].Kind == "NOTIFICATION" && got.Out[n-2].Kind == "KEEPALIVE" {
 		got.Out = append(append(got.Out[:0:0], got.Out[:n-2]...), got.Out[n-1])
+	}
+	if got.openProblem != "" {
+		return "open-content", "wrong", "the OPEN carries the configuration", got.openProblem
 	}
 	if len(exp.Out) != len(got.Out) {
 		return "outbox", "wrong", exp.Out, got.Out
@@ -716,6 +756,8 @@ func init() {
 				} else {
 					s.vrf.IPv4UnicastRIB().RemovePath(pfx, p)
 				}
+			case "Wait":
+				time.Sleep(2200 * time.Millisecond) // the periodic timer checks of the FSM run once per second
 			case "HoldExpires":
 				server.VerifAgeHoldTimer(s.srv, s.vrf, s.peerKey, time.Hour)
 				wait = 10 * time.Second // the periodic check runs once per second and competes with the keepalive timer
